@@ -12,7 +12,8 @@ VERIF = Path(__file__).resolve().parent.parent
 SEEDED = VERIF / "seeded"
 EXTRA = {  # seeds that other checks should see as well
     "C07-B": ["C08"], "C10-A": ["C07"], "C12-A": ["C05"], "C13-A": ["C12", "C02"], "C03-A": ["C17", "C04"], "C03-B": ["C04"],
-    "C11-B": ["C15"], "C15-B": ["C11"], "C01-A": ["C05"], "REVERT-H1_corrfunc_to_hdf_names": ["C03"],
+    "C11-B": ["C15"], "C01-C": ["C07", "C10"], "C04-C": ["C05", "C01"], "C05-D": ["C07"], "C07-C": ["C08"], "C13-C": ["C01", "C12"],
+    "C12-C": ["C01"], "C18-C": ["C16"], "C16-C": ["C18"], "C02-C": ["C05", "C12"], "C02-D": ["C18"], "C08-C": ["C07"], "C15-B": ["C11"], "C01-A": ["C05"], "REVERT-H1_corrfunc_to_hdf_names": ["C03"],
 }
 
 
